@@ -22,6 +22,9 @@ def run(chk):
     sh = common.stage_graph(chk, 'MC_Reorder3', 'MC_Reorder3.cfg' if q else 'MC_Reorder3_deep.cfg',
                             ['a', 'b', 'c'], 3, limit=1500 if q else 60000,
                             need_actions=['swap', 'reorder', 'sift', 'apply', 'drop'])
+    # hundreds of held functions at once (levels with many hundreds of nodes)
+    sh += common.stage_histories(chk, ntraces=2 if q else 16, steps=900, nvars_choices=[5], nparts=2 if q else 16,
+                                 profile='many_held', tag='mh')
     hs = common.stage_histories(chk, ntraces=96 if q else 5000,
                                 steps=40 if q else 80,
                                 nvars_choices=[2, 3, 4, 5, 3, 4, 1, 0],
